@@ -107,7 +107,7 @@ def safe(f, *a, **k):
         return None, traceback.format_exc()
 
 
-def single_gate_sweep(ck, m, rng, per_kind=None):
+def single_gate_sweep(ck, m, rng, per_kind=None, inject_cb=None):
     """Directed stream: every gate kind of the generator as a one-gate circuit (inputs -> gate -> output), ALL value combinations of
     its operands in one bit-parallel simulation (sampled down to per_kind lanes if given), compared with the independent composition
     of the documented operators.  Finds the concrete operand tuple when a dispatch branch is wrong.  Returns [(desc, what)]."""
@@ -131,9 +131,9 @@ def single_gate_sweep(ck, m, rng, per_kind=None):
             combos = rng.sample(combos, per_kind)
         stim = np.zeros((len(c.s_nodes), len(combos)), dtype=np.uint8)
         stim[:ar, :] = np.array(combos, dtype=np.uint8).T
-        res, err = safe(lc.run_logicsim, c, m, stim, False, False)
-        desc = {'circuit': cg.describe(c), 'm': m, 'c_reuse': False, 'strip_forks': False, 'kind': kind}
-        ck.count(len(combos), f'single-gate sweep m={m}')
+        res, err = safe(lc.run_logicsim, c, m, stim, False, False, None, inject_cb)
+        desc = {'circuit': cg.describe(c), 'm': m, 'c_reuse': False, 'strip_forks': False, 'kind': kind, 'cycles': 1, 'observer_callback': inject_cb is not None}
+        ck.count(len(combos), f'single-gate sweep m={m}' + (' (callback path)' if inject_cb is not None else ''))
         if err is not None:
             fails.append((dict(desc, stimulus=stim[:, :1].tolist()), 'raises ' + err[-300:]))
             continue
